@@ -18,7 +18,7 @@ def run(rep, kf, tier, seed):
         import contracts.normalise as cn
         import contracts.responses_b as rb
         r = core.Report("C06", tier, seed)
-        engine_b.discharge(r, kf, [rb.add_responses_contract(), cn.get_document_contract()], "C06", tier, seed)
+        engine_b.discharge(r, kf, [rb.add_responses_contract(), cn.get_document_contract(), cn.load_contract()], "C06", tier, seed)
         return r
     tasks.append(t_resp)
     # O2/O3: the Any-typed default flows: no exception escapes any convert_value (shared with C13)
